@@ -325,6 +325,8 @@ func (op *ShellOperator) conversionEventHandler(crdName string, request *v1.Conv
 	}
 	logEntry := utils.EnrichLoggerWithLabels(op.logger, logLabels)
 
+	// request.Objects is replaced by the output of every step, keep the requested count.
+	requestedObjects := len(request.Objects)
 	sourceVersions := conversion.ExtractAPIVersions(request.Objects)
 	logEntry.Info("Handle kubernetesCustomResourceConversion event for crd",
 		slog.String("name", crdName),
@@ -386,6 +388,14 @@ func (op *ShellOperator) conversionEventHandler(crdName string, request *v1.Conv
 			if response.FailedMessage != "" {
 				return &conversion.Response{
 					FailedMessage: response.FailedMessage,
+				}, nil
+			}
+
+			// Every step should return all objects: the final count check in the webhook
+			// handler compares with request.Objects, which is replaced below.
+			if len(response.ConvertedObjects) != requestedObjects {
+				return &conversion.Response{
+					FailedMessage: fmt.Sprintf("hook returned %d objects instead of %d", len(response.ConvertedObjects), requestedObjects),
 				}, nil
 			}
 
